@@ -5,7 +5,6 @@ from engine.driver import poly as P
 from engine.driver.core import Ob
 from engine.driver.encode import Constraint
 from spec import catalogue as cat
-from spec.replayfix import numeric_replay
 
 ID = "C07"
 HARNESS = "C07_constraints.cpp"
@@ -38,6 +37,7 @@ BODY2 = ["Rod", "Ball", "Weld", "PointInPlane", "PointOnLine", "ConstantAngle", 
 POOL1 = ["Bushing", "Free", "Free", "Bushing"]
 POOL2 = ["Gimbal", "Ball", "Universal", "Cylinder", "Planar", "Pin", "Slider", "Translation", "Screw", "BendStretch", "SphericalCoords", "Free", "Bushing"]
 POOL3 = ["Pin", "Slider", "Universal", "Cylinder", "Gimbal", "Planar", "Ball", "Screw", "Translation"]
+QDOT_NOT_U = ("Ball", "Free", "Ellipsoid", "LineOrientation", "FreeLine")
 RICH = ["Gimbal", "Ball", "Universal", "Free", "Bushing", "Cylinder", "Planar"]      # first ("base") bodies: always with rotational freedom
 RICH3 = ["Pin", "Universal", "Gimbal", "Cylinder", "Ball"]
 
@@ -97,7 +97,17 @@ def instances(tier, seed):
     out = []
 
     def add(ctype, label, tree, cspec, euler):
-        out.append(dict(name="%s[%s]%s{%s}%s" % (ctype, label, cspec, tree, ":euler" if euler else ""), args=[tree, "1" if euler else "0", ctype + ":" + cspec]))
+        name = "%s[%s]%s{%s}%s" % (ctype, label, cspec, tree, ":euler" if euler else "")
+        if ctype in ("ConstantCoordinate", "CoordinateCoupler", "PrescribedMotion"):
+            # a constrained coordinate that is a rotational coordinate of a mobilizer with qdot != u (NDot*u != 0): these
+            # instances carry a common prefix (known finding: calcBiasForAccelerationConstraints feeds zero qdotdot)
+            bodies, idx = cspec.split(":")
+            for b, i in zip(bodies.split(","), idx):
+                m = _mob_of(tree, int(b))
+                if m in QDOT_NOT_U and int(i) < (3 if euler else 4):
+                    name = "qdotNotU:" + name
+                    break
+        out.append(dict(name=name, args=[tree, "1" if euler else "0", ctype + ":" + cspec]))
 
     ndraw = 2 if tier == "thorough" else 1
     for ctype in BODY2:
@@ -156,7 +166,6 @@ def free_sets(inst, tr, tier, rng):
 
 
 def obligations(enc, inst, tr):
-    numeric_replay(enc, tr)
     R = enc.ring
     g = lambda k: int(tr.note(k))
     nu, nq, mp, mv, ma = g("nu"), g("nq"), g("mp"), g("mv"), g("ma")
